@@ -16,7 +16,7 @@ def hrefName : Bytes := [104, 114, 101, 102]
 /-- sanitizationContextForAttrVal; `none` = error -/
 def sanitizationContextForAttrVal (element attr linkRel : Bytes) : Option SC :=
   if element == linkName && attr == hrefName &&
-      (fields linkRel).any (fun v => memKey urlLinkRelVals v) then some .TrustedResourceURLOrURL
+      (!(fields linkRel).isEmpty && (fields linkRel).all (fun v => memKey urlLinkRelVals v)) then some .TrustedResourceURLOrURL
   else if Rx.matchString template_dataAttributeNamePattern attr then some .None
   else
     match elementSpecificAttr.find? (fun r => r.2.2.1 == attr && r.2.2.2.1 == element) with
